@@ -24,7 +24,8 @@ LEVEL_NOTE = (
     "000001xx tag group (group destinations only), 01SSSSxx connected data, 10000000 connect, 10000001 disconnect, 11SSSS10 ack, "
     "11SSSS11 nak; the connection-oriented codes only for individual destinations). Judged: exception class of a rejection "
     "(ConversionError), re-encoding equality on the transport bits (all 8 for control PDUs, upper 6 for data PDUs), "
-    "undefined codes accepted, encode->decode of every constructible PDU with sequence number 0..15. "
+    "undefined codes accepted, encode->decode of every constructible PDU with sequence number 0..15; a decode is independent of what a consumer "
+    "did to the object returned by an earlier decode of the same octet (attributes changed, then decoded again, directly and through cEMI). "
     "Not judged (recorded): defined data codes with non-zero APCI bits that are rejected, PDUs built with sequence numbers "
     "outside 0..15, which APCI follows in the cEMI frame."
 )
@@ -123,6 +124,40 @@ def _judge_pdu(ctx, where, octet, kname, kind, pdu):
     return True
 
 
+def _mutation_probe(ctx, where, octet, kname, kind, pdu, decode_again):
+    """Change the attributes of a decoded PDU (as a consumer may), decode the same octet again: the new result must be pristine.
+
+    `decode_again()` returns the TPCI object of a second, independent decode of the same input (or None)."""
+    cls = type(pdu).__name__
+    before = pdu.sequence_number
+    try:
+        pdu.sequence_number = (before + 5) & 0xF
+    except AttributeError:
+        ctx.count("decoded_pdu_without_settable_attributes")
+        return
+    ctx.count("decoded_pdu_mutated_then_decoded_again")
+    ctx.ev()
+    again = decode_again()
+    ref = ref_decode(octet, kind)
+    mask = 0xFF if pdu.control else 0xFC
+    ok = again is not None and type(again) is type(pdu) and again.sequence_number == before and again.to_knx() & mask == octet & mask
+    if ref is not None and ok:
+        ok = (type(again).__name__, again.sequence_number) == ref
+    if ok:
+        ctx.count("second_decode_pristine")
+    else:
+        ctx.violation(f"{where}-{kind}-{cls}-second-decode-reflects-mutation-of-earlier-result",
+                      {"octet": octet, "octet_bin": f"{octet:08b}", "kind": kname, "where": where, "first_decoded_sequence_number": before,
+                       "consumer_set_sequence_number_to": (before + 5) & 0xF, "second_decode": repr(again),
+                       "second_reencodes_to": None if again is None else again.to_knx()},
+                      f"octet {octet:#04x} ({kname}) decoded to {cls}(seq {before}); after the consumer changed that object's sequence_number the same "
+                      f"octet decodes to {again!r}, which encodes to {None if again is None else hex(again.to_knx())}")
+    try:   # restore, so that a shared instance does not poison the rest of the sweep
+        pdu.sequence_number = before
+    except AttributeError:
+        pass
+
+
 def _cemi_frame(octet: int, is_group: bool, is_zero: bool, tail: bytes) -> bytes:
     ctrl1 = 0xBC
     ctrl2 = 0xE0 if is_group else 0x60
@@ -154,6 +189,11 @@ def _exhaustive_octets(ctx):
             else:
                 ctx.count("decoded")
                 ok = _judge_pdu(ctx, "resolve", octet, kname, kind, res)
+                if ok:
+                    def _again(octet=octet, is_group=is_group, is_zero=is_zero):
+                        what2, res2 = _resolve(octet, is_group, is_zero)
+                        return res2 if what2 == "pdu" else None
+                    _mutation_probe(ctx, "resolve", octet, kname, kind, res, _again)
                 outcome = type(res).__name__ + ("" if ok else "!")
                 if octet in (0x00, 0x47, 0xC2) and kname == "individual":
                     ctx.sample({"octet": f"{octet:#04x}", "kind": kname, "decoded": repr(res), "reencoded": f"{res.to_knx():#04x}"})
@@ -194,6 +234,13 @@ def _exhaustive_octets(ctx):
                 continue
             if not _judge_pdu(ctx, "cemi", octet, kname, kind, pdu):
                 continue
+
+            def _again_cemi(raw=raw):
+                try:
+                    return CEMILData.from_knx(raw).tpci
+                except BaseException:  # noqa: BLE001
+                    return None
+            _mutation_probe(ctx, "cemi", octet, kname, kind, pdu, _again_cemi)
             try:
                 again = parsed.to_knx()
             except BaseException as exc:  # noqa: BLE001
@@ -287,7 +334,7 @@ def run(ctx):
     ctx.rule = ("exhaustive: 256 octets x 4 destination kinds (individual, individual 0.0.0, group, broadcast) through TPCI.resolve and through "
                 "CEMILData.from_knx; 54 constructible PDUs x their destination kinds; distinct = (kind, octet class, outcome) and (PDU, kind, seq)")
     ctx.require("resolve_calls", "rejected", "decoded", "accepted_and_reencodes", "cemi_decoded", "cemi_frame_reencodes",
-                "pdu_roundtrips", "pdu_roundtrip_ok")
+                "pdu_roundtrips", "pdu_roundtrip_ok", "decoded_pdu_mutated_then_decoded_again", "second_decode_pristine")
     # self test of the reference table: 4 + 4 + 64 + 2 + 32 defined codes for individual, 8 for group
     n_ind = sum(ref_decode(o, "individual") is not None for o in range(256))
     n_grp = sum(ref_decode(o, "group") is not None for o in range(256))
